@@ -73,11 +73,18 @@ func (v *ApiValidator) validateControllers() ([]diagnostics.EntityDiagnostic, []
 func (v *ApiValidator) getRouteEntries(controller *metadata.ControllerMeta) []paths.RouteEntry {
 	entries := make([]paths.RouteEntry, 0, len(controller.Receivers))
 
+	// Routes are served under the controller's own @Route prefix: two methods overlap only if their FULL
+	// templates do
+	controllerRoute := ""
+	if controller.Struct.Annotations != nil {
+		controllerRoute = controller.Struct.Annotations.GetFirstValueOrEmpty(annotations.GleeceAnnotationRoute)
+	}
+
 	for _, route := range controller.Receivers {
 		entries = append(
 			entries,
 			paths.RouteEntry{
-				Path:   route.Annotations.GetFirstValueOrEmpty(annotations.GleeceAnnotationRoute),
+				Path:   controllerRoute + route.Annotations.GetFirstValueOrEmpty(annotations.GleeceAnnotationRoute),
 				Method: route.Annotations.GetFirstValueOrEmpty(annotations.GleeceAnnotationMethod),
 				Meta: paths.RouteEntryMeta{
 					Controller: controller,
